@@ -584,7 +584,18 @@ func nativeReplay(spec *Spec, rf *ReplayFile, path string, workDir string) (map[
 	ovFile := filepath.Join(workDir, "overlay_"+strings.ReplaceAll(rd, "/", "_")+".json")
 	os.WriteFile(ovFile, ovJSON, 0o644)
 	bin := filepath.Join(workDir, "replay_"+strings.ReplaceAll(rd, "/", "_")+".test")
-	build := exec.Command("go", "test", "-c", "-vet=off", "-overlay", ovFile, "-o", bin, "./"+rd)
+	raceBuild := false
+	for _, c := range rf.Cases {
+		if c.Label == "data-race" {
+			raceBuild = true
+		}
+	}
+	buildArgs := []string{"test", "-c", "-vet=off", "-overlay", ovFile, "-o", bin}
+	if raceBuild {
+		buildArgs = append(buildArgs, "-race")
+	}
+	buildArgs = append(buildArgs, "./"+rd)
+	build := exec.Command("go", buildArgs...)
 	build.Dir = repoDir
 	build.Env = append(os.Environ(), "GOFLAGS=-mod=mod", "GOPROXY=off", "GOSUMDB=off", "GOTOOLCHAIN=local")
 	if bout, err := build.CombinedOutput(); err != nil {
@@ -595,6 +606,9 @@ func nativeReplay(spec *Spec, rf *ReplayFile, path string, workDir string) (map[
 	cmd.Env = append(os.Environ(), "ZZVERIF_REPLAY="+path)
 	out, _ := cmd.CombinedOutput()
 	os.Remove(bin)
+	if raceBuild && strings.Contains(string(out), "WARNING: DATA RACE") {
+		out = append(out, []byte("\nREPLAY-CASE cex VIOLATION data-race (reported by the Go race detector)\n")...)
+	}
 	res := map[string]string{}
 	for _, l := range strings.Split(string(out), "\n") {
 		l = strings.TrimSpace(l)
